@@ -148,6 +148,19 @@ func New(seed uint64, trace io.Writer) *World {
 			// texts a user might type by hand that begin like a query message
 			return []byte([]string{"?OTRv3? ", "?OTRv23? ", "?OTR?v2? ", "?OTRv2?", "?OTR? "}[id%5] + core)
 		}
+		if id >= 7000 && id < 9000 {
+			// a text of exactly id-7000 bytes (lengths around the padding boundaries)
+			n := id - 7000
+			b := []byte(core + "-")
+			for len(b) < n {
+				b = append(b, "abcdefghijklmnopqrstuvwxyz0123456789 "[len(b)%37])
+			}
+			return b[:max(n, 1)]
+		}
+		if id%5 == 4 {
+			// trailing blanks belong to the text
+			return []byte(core + "  \t ")
+		}
 		return []byte(core)
 	}
 	return w
